@@ -314,6 +314,28 @@ impl Scenario for C03 {
     }
 }
 
+/// Two users whose nicknames share their first 200 characters.
+pub fn c02_long_scn() -> ChatScn {
+    let leak = |s: String| -> &'static str { Box::leak(s.into_boxed_str()) };
+    let t = "L".repeat(200);
+    let mut s = ChatScn::new("c02-long-nicks", Cfg::default(), vec![part(0, leak(t.clone()), leak(format!("{}y", t)), "lu"), part(1, "bob", leak(format!("{}x", t)), "bu"), part(2, "wit", "witty", "wu")], 0);
+    for slot in 0..2 {
+        for t in ["NICK {alt}", "AWAY :gone", "JOIN #x", "QUIT"] {
+            s.alphabet_for.push((slot, t));
+        }
+    }
+    s.ends = vec!["eof"];
+    s.focus = Focus::all();
+    s.invariants = vec!["membership-symmetry", "dangling-member"];
+    s.state_oracle = Some(Box::new(|_scn, _w, v, _g| ownership_bijection(v)));
+    for slot in 0..2 {
+        s.probes_for.push((slot, "PRIVMSG wit :p"));
+    }
+    s.probes_for.push((2, "ISON bob {peer}"));
+    s.probe_focus = Some(Focus { cats: vec![], relays: true, relay_verbs: Some(vec!["PRIVMSG"]), actor: true, actor_codes: Some(vec!["303", "301", "401"]), closes: false });
+    s
+}
+
 pub fn plan(property: &str, quick: bool) -> Plan {
     match property {
         "C02" => {
@@ -335,6 +357,10 @@ pub fn plan(property: &str, quick: bool) -> Plan {
             // "modify only the user it registered itself": two users whose nicknames differ only in
             // letter case are two users (scenario shared with C11)
             parts.push(Part::Bfs(Box::new(super::life::c11_case_scn()), lim(if quick { 4 } else { 5 }, 2_000_000, if quick { 20.0 } else { 300.0 })));
+            // nicknames at and beyond the advertised NICKLEN (200): the server accepts longer
+            // ones, so they are whole nicknames - a longer name is not the user whose name is
+            // its 200-character prefix
+            parts.push(Part::Bfs(Box::new(c02_long_scn()), lim(if quick { 4 } else { 5 }, 2_000_000, if quick { 20.0 } else { 300.0 })));
             // simultaneous claims at every interleaving the runtime can produce (the password
             // check and the lock hand-over are scheduling points): the registration bursts of C18
             for b in ["reg-race-2", "reg-race-2-user-first", "reg-race-2-password", "nick-vs-registration", "nick-race", "kill-vs-reregistration"] {
